@@ -355,7 +355,9 @@ def tree_7(ctx, rep):
     prog = ctx.prog
     n_sites = 0
     for f in prog.funcs.values():
-        if f.mod.rel != PYTREE or f.name != '__init__':
+        if f.mod.rel != PYTREE or f.name == '_create_params':
+            continue            # constructors, or the helper they share for the grouping
+        if not any(isinstance(c, ast.Call) and isinstance(c.func, ast.Name) and c.func.id == '_create_params' for c in walk_own(f.node)):
             continue
         cfg = ctx.cfg(f)
         for n in cfg.nodes:
@@ -366,7 +368,7 @@ def tree_7(ctx, rep):
                 rep.ob('TREE-7', PYTREE, f.qual, norm(c), ok,
                        'constructing the class from already grouped children (dump()/eval, unpickling helpers) groups the '
                        'parameters a second time')
-    rep.minimum('TREE-7', 2)
+    rep.minimum('TREE-7', 1)
 
 
 # ---------------------------------------------------------------------------
